@@ -37,6 +37,7 @@ type RunSpec struct {
 	Thorough     TierCfg  `json:"thorough"`
 	Claim        string   `json:"claim"`
 	NoReplay     bool     `json:"noReplay"`
+	Solver       string   `json:"solver"`
 }
 
 type PropSpec struct {
@@ -260,7 +261,7 @@ func cmdCheck(args []string) int {
 			return 3
 		}
 		cfg := &RunConfig{Harness: rs.Entry, PkgDir: rs.Pkg, Preempt: tc.Preempt, EnvEvents: tc.Env, AllMapOrders: rs.AllMapOrders,
-			Race: rs.Race, StepBound: 3_000_000, Sequential: rs.Sequential, Params: tc.Params, MaxPaths: 50_000_000}
+			Race: rs.Race, StepBound: 3_000_000, Sequential: rs.Sequential, Params: tc.Params, MaxPaths: 50_000_000, Solver: rs.Solver}
 		budget := time.Duration(tc.BudgetS) * time.Second
 		if budget == 0 {
 			budget = 10 * time.Minute
@@ -298,6 +299,7 @@ func cmdRun(args []string) int {
 	workers := fs.Int("workers", runtime.NumCPU(), "")
 	budget := fs.Int("budget", 300, "")
 	params := fs.String("params", "", "k=v,k=v")
+	solverName := fs.String("solver", "", "z3 (default) or cvc5")
 	if len(args) < 3 {
 		fmt.Println("usage: gosym run <pkgdir> <harnessfile[,file]> <entry> [flags]")
 		return 2
@@ -335,7 +337,7 @@ func cmdRun(args []string) int {
 		}
 	}
 	cfg := &RunConfig{Harness: entryName, PkgDir: pkgDir, Preempt: *preempt, EnvEvents: *env, AllMapOrders: *orders, Race: *race,
-		StepBound: 3_000_000, Params: pm, MaxPaths: 50_000_000}
+		StepBound: 3_000_000, Params: pm, MaxPaths: 50_000_000, Solver: *solverName}
 	res := runHarness(l.prog, entry, cfg, handlers, known, *workers, time.Duration(*budget)*time.Second)
 	b, _ := json.MarshalIndent(res.Stats, "", " ")
 	fmt.Println(string(b))
